@@ -72,13 +72,14 @@ def run_proof(modname, proofname, opts=None, sources=None):
         res['prop'] = decl.prop
         res['targets'] = [list(t) for t in decl.targets]
         res['assumes'] = list(decl.assumes)
+        res['native'] = getattr(decl, 'native', True)
         ex = Explorer(branch_timeout_ms=opts.get('branch_timeout_ms', 5000),
                       query_timeout_ms=opts.get('query_timeout_ms', 10000),
                       max_paths=opts.get('max_paths', 20000))
         undo_base = snapshot_modules(it)
 
         def one(path):
-            restore_modules(it, undo_base)
+            it.restore_modules()
             it.reset_path(path)
             it.ob_prefix = ''
             it.log_events = []
@@ -150,19 +151,21 @@ def describe_exc(it, exc):
 def snapshot_modules(it):
     """Module namespaces and function attributes that proof scripts may
     patch; restored before every path."""
-    from .interp import FuncVal, ModuleVal
+    from .interp import FuncVal, ModuleVal, ClassVal
     snap = {}
     for name, m in it.modules.items():
         fattrs = {}
         for k, v in m.ns.items():
             if isinstance(v, FuncVal):
                 fattrs[k] = dict(v.attrs)
+            elif isinstance(v, ClassVal) and v.module is m:
+                fattrs[k] = dict(v.ns)
         snap[name] = (dict(m.ns), fattrs)
     return snap
 
 
 def restore_modules(it, snap):
-    from .interp import FuncVal
+    from .interp import FuncVal, ClassVal
     for name, (ns, fattrs) in snap.items():
         m = it.modules[name]
         m.ns.clear()
@@ -172,6 +175,9 @@ def restore_modules(it, snap):
             if isinstance(v, FuncVal):
                 v.attrs.clear()
                 v.attrs.update(a)
+            elif isinstance(v, ClassVal):
+                v.ns.clear()
+                v.ns.update(a)
 
 
 def _job(args):
